@@ -57,6 +57,9 @@ def run(ctx):
     for k, v in s.get("drift", {}).items():
         ctx.note("DRIFT (property kept): %s x%d" % (k, v))
     ctx.cov["evaluations"] = s["evaluations"]
+    ctx.cov["table_rows"] = len(rows)
+    ctx.cov["chains_replayed"] = s["chains"]
+    ctx.cov["block_commits"] = s["commits"]
     ctx.cov["distinct_nontrivial"] = s["distinct"]
     ctx.cov["traces_validated_against_impl"] = 0
     ctx.sample({"chains": chains[:3], "long": allk[0]})
